@@ -52,7 +52,15 @@ def run(eng, ctx):
             if recv[0] in ("loop", "loopout") or recv[0] == "list":
                 tainted_vars.add(recv[2] if recv[0] in ("loop", "loopout") else None)
             appends.append(e)
-    dep = lambda t: mentions(t, lambda s: LF(s) or (s[0] in ("loop", "loopout") and s[2] in tainted_vars))  # noqa: E731
+    def strip_len(t):
+        """The *length* of the label list does not depend on the option (its appends are guarded by mask bits only): len(list) is cut out."""
+        if isinstance(t, tuple) and t:
+            if t[0] == "call" and t[2] == ("builtin", "len") and len(t[3]) == 1 and t[3][0][0] in ("loop", "loopout") and t[3][0][2] in tainted_vars:
+                return ("const", 0)
+            return tuple(strip_len(x) if isinstance(x, tuple) else x for x in t)
+        return t
+
+    dep = lambda t: mentions(strip_len(t), lambda s: LF(s) or (s[0] in ("loop", "loopout") and s[2] in tainted_vars))  # noqa: E731
     ctx.check(len(appends) == 1, "C16.D1", mb.qualname, "option-dependent appends", expected="exactly one (the signal label)", found=str(len(appends)), **eng.loc(mb, mb.node))
     for e in se.effects:
         loc = eng.loc(mb, e.node)
@@ -135,7 +143,17 @@ def run(eng, ctx):
     ctx.rule("C16.D4", "the map builder is invoked only at the cell mask field, which occurs only in the MSM definitions")
     SH.derived_counts(eng, ctx, "C03.D9")
     callers = eng.res.callers_of(mb.qualname)
-    ctx.check(len(callers) == 1 and callers[0].caller == eng.single_field_routine, "C16.D4", mb.qualname, "who may call the map builder", expected="one site in the single-field routine", found=", ".join(c.caller for c in callers), **eng.loc(mb, mb.node))
+
+    def rooted(q, seen=()):
+        """every call chain into q starts in the single-field routine (possibly through private helpers)."""
+        if q == eng.single_field_routine:
+            return True
+        if q in seen or q in eng.role_functions:
+            return False
+        cs = eng.res.callers_of(q)
+        return bool(cs) and all(rooted(c.caller, seen + (q,)) for c in cs)
+
+    ctx.check(len(callers) >= 1 and all(rooted(c.caller) for c in callers), "C16.D4", mb.qualname, "who may call the map builder", expected="only the single-field routine (directly or through its private helpers)", found=", ".join(c.caller for c in callers), **eng.loc(mb, mb.node))
     cell_src = eng.decoder_facts["derived_counters"].get(T.const.get("NCELL", "NCell"))
     users = {ident for tname, ident, d, prov in T.definitions() for o in T.walk(ident, d) if o.kind == "field" and o.key == cell_src}
     msm = set(T.tables["RTCM_PAYLOADS_GET_MSM"])
